@@ -316,7 +316,7 @@ int32_t jls_buf_rd_str(struct jls_buf_s * self, const char ** value) {
         *s->cur++ = ch;
         // Strings end with {0, 0x1f} = {null, unit separator}
         if (ch == 0) {
-            if (*self->cur == 0x1f) {
+            if ((self->cur != self->end) && (*self->cur == 0x1f)) {
                 self->cur++;
             }
             *value = str;
